@@ -78,6 +78,8 @@ def mk(H, W, actions, what, view=Shape(1, 3)):
         from ..stubs import ORS
         if what in ('switch-sequence', 'switch'):
             sig = [e for e in SIG3 if e[0] in ('Floor', 'Key(YELLOW)')]
+        if what.endswith('two-steps'):
+            sig = [e for e in SIG5 if e[0] in ('Floor', 'Exit(NONE)')]
         S, world = lazy_state(sx, H, W, SIG5[:1] if what.endswith('reset') else sig, held_sigma=HELD,
                               orientations=ORS[:1] if (what.endswith('reset') or what == 'switch-sequence') else ORS)
         holder['fresh'] = S
@@ -91,7 +93,7 @@ def mk(H, W, actions, what, view=Shape(1, 3)):
         sx.cover(what)
         # reads that may have happened before the operation (the adapter must not keep anything of them)
         can_state = H >= 2 and W >= 2
-        prior = sx.choice('prior', (['none', 'both'] if what in ('step', 'wrapper-step', 'switch') else ['none'] if what == 'switch-sequence' else ['none', 'observation', 'state', 'both']) if can_state else ['none', 'observation'])
+        prior = sx.choice('prior', (['none', 'both'] if what in ('step', 'wrapper-step', 'switch') else ['none'] if (what == 'switch-sequence' or what.endswith('two-steps')) else ['none', 'observation', 'state', 'both']) if can_state else ['none', 'observation'])
         if prior in ('observation', 'both'):
             genv.observation
         if prior in ('state', 'both'):
@@ -125,6 +127,26 @@ def mk(H, W, actions, what, view=Shape(1, 3)):
                 sx.check(set(info) == {'observation'} and dict_eq(info['observation'], exp_obs), 'wrapper-passes-the-observation-through-info')
                 sx.check((env.observation_space is genv.state_space or env.observation_space == genv.state_space) and bool(env.observation_space.contains(ob)), 'wrapper-advertises-and-respects-the-state-space')
             fresh_views('after-step', S1)
+        elif what in ('two-steps', 'wrapper-two-steps'):
+            # stepping on after whatever the first step returned (also after a terminal step, without reset): each step still reports the
+            # inner reward and termination flag of THAT step and the observation of its post-step state
+            env = GymStateWrapper(genv) if what.startswith('wrapper') else genv
+            cur = fast_copy(S)
+            for k in range(2):
+                i = sx.int(f'i{k}', 0, len(actions) - 1)
+                out = env.step(i)
+                i = int(i)
+                cur, r2, d2 = twin.functional_step(cur, actions[i])
+                sx.check(isinstance(out, tuple) and len(out) == 4, 'step-returns-4-tuple')
+                ob, reward, done, info = out
+                sx.check(reward == r2, f'step-{k + 1}-reward-is-the-inner-reward', f'{reward} vs {r2}')
+                sx.check(bool(done) == bool(d2), f'step-{k + 1}-flag-is-the-inner-termination-flag', f'{done} vs {d2}')
+                exp_obs = orep.convert(twin.functional_observation(cur))
+                if what == 'two-steps':
+                    sx.check(dict_eq(ob, exp_obs), f'step-{k + 1}-returns-the-observation-of-the-post-step-state')
+                else:
+                    sx.check(dict_eq(ob, srep.convert(cur)) and dict_eq(info.get('observation', {}), exp_obs), f'step-{k + 1}-wrapper-views-current')
+            fresh_views('after-two-steps', cur)
         elif what in ('reset', 'wrapper-reset'):
             fresh, _ = lazy_state(sx, H, W, sig, name='r', held_sigma=[], agent='r', held='rheld', orientations=ORS[1:3])
             holder['fresh'] = fresh
@@ -187,6 +209,8 @@ def obligations(tier):
         for what in ('wrapper-step', 'wrapper-reset', 'switch', 'switch-sequence'):
             acts, an = (SUBSET, 'subset3') if (q and what == 'wrapper-step') else (PERM, 'perm8')
             obs.append(Obligation(f'{what}-{an}-{H}x{W}', mk(H, W, acts, what), dict(what=what, H=H, W=W, actions=an)))
+    obs.append(Obligation('two-steps-perm8-1x3', mk(1, 3, PERM, 'two-steps'), dict(what='two consecutive steps without reset (also after a terminal one)', H=1, W=3, actions='perm8', alphabet='Floor, Exit')))
+    obs.append(Obligation('wrapper-two-steps-subset3-2x2', mk(2, 2, SUBSET, 'wrapper-two-steps'), dict(what='two consecutive steps through the state wrapper', H=2, W=2, actions='subset3', alphabet='Floor, Exit')))
     if not q:
         obs.append(Obligation('step-perm8-2x2-view2x3', mk(2, 2, PERM, 'step', Shape(2, 3)), dict(what='step', view=[2, 3])))
     return obs
